@@ -53,7 +53,11 @@ THEOREMS = ['C16_split_flags_star', 'C16_split_flags_plus',
             'C16_macrobody_flag_stops_run_t', 'C16_bc_entry_sound',
             'C16_bc_stale_kind_quirk', 'C16_bc_designates_keys',
             'C16_aux_ids_above', 'C16_bc_designates_keys_trcl',
-            'C16_finish_designates', 'C16_finish_sound']
+            'C16_finish_designates', 'C16_finish_sound',
+            'C16_merge_entries_gen',
+            'C16_bc_designates_present_same_locus_linked',
+            'C16_bc_entries_designate_written_linked',
+            'C16_conflicting_flags_rejected_linked']
 TRUSTED = [
     'hand-written model coq/C16/Model.v (modelled, tied by execution only)',
     'surfaces are abstract in the model: a descriptor class stands for '
